@@ -17,6 +17,41 @@ class AnalysisError(Exception):
     """The analysis itself cannot be trusted (exit 2)."""
 
 
+_FLIP = {ast.Lt: ast.Gt, ast.Gt: ast.Lt, ast.LtE: ast.GtE, ast.GtE: ast.LtE, ast.Eq: ast.Eq, ast.NotEq: ast.NotEq}
+
+
+def _constish(e):
+    return isinstance(e, ast.Constant) or (isinstance(e, ast.UnaryOp) and isinstance(e.op, ast.USub) and isinstance(e.operand, ast.Constant))
+
+
+class _Canon(ast.NodeTransformer):
+    """Shape canonicalisation applied to every module before any rule sees it, so that rules do not depend on which of two equivalent
+    spellings the author chose (all are pure syntax, no evaluation order changes for the operands involved):
+      * `if not c: A else: B`  ->  `if c: B else: A`   (plain if/else; elif chains and else-less ifs are left alone)
+      * `A if not c else B`    ->  `B if c else A`
+      * `<const> OP x`         ->  `x OP' <const>`     (OP in < <= > >= == !=; constants have no side effects)
+    Line numbers of the surviving nodes are those of the source."""
+
+    def visit_If(self, node):
+        self.generic_visit(node)
+        if node.orelse and not (len(node.orelse) == 1 and isinstance(node.orelse[0], ast.If)) \
+                and isinstance(node.test, ast.UnaryOp) and isinstance(node.test.op, ast.Not):
+            node.test, node.body, node.orelse = node.test.operand, node.orelse, node.body
+        return node
+
+    def visit_IfExp(self, node):
+        self.generic_visit(node)
+        if isinstance(node.test, ast.UnaryOp) and isinstance(node.test.op, ast.Not):
+            node.test, node.body, node.orelse = node.test.operand, node.orelse, node.body
+        return node
+
+    def visit_Compare(self, node):
+        self.generic_visit(node)
+        if len(node.ops) == 1 and type(node.ops[0]) in _FLIP and _constish(node.left) and not _constish(node.comparators[0]):
+            node.left, node.comparators, node.ops = node.comparators[0], [node.left], [_FLIP[type(node.ops[0])]()]
+        return node
+
+
 class Module:
     __slots__ = ("name", "path", "relpath", "source", "tree", "sha", "lines", "is_pkg")
 
@@ -34,6 +69,7 @@ class Module:
                 self.tree = ast.parse(source, filename=path)
         except SyntaxError as ex:
             raise AnalysisError("unparsable module %s: %s" % (relpath, ex))
+        self.tree = _Canon().visit(self.tree)
         for node in ast.walk(self.tree):
             for child in ast.iter_child_nodes(node):
                 child._parent = node
